@@ -6,6 +6,7 @@ From Coq Require Import String.
 From Coq Require Import List Arith Permutation.
 From ESRV Require Import Model.Shapes Model.Labels Proofs.ShapesProofs Proofs.LabelsProofs.
 From ESRV Require Import Gen.GenShapes Proofs.ShapesGenProofs.
+From ESRV Require Import Common.Np Gen.GenAllowed Proofs.AllowedGenProofs.
 Import ListNotations.
 Open Scope list_scope.
 Open Scope nat_scope.
@@ -95,6 +96,24 @@ Theorem C01_allowed_exact : forall n, 1 <= n ->
             (forall s, In s l <-> length s = n /\ exists t, pre t = s) /\ NoDup l.
 Proof. exact allowed_exact. Qed.
 Print Assumptions C01_allowed_exact.
+
+(* ... and the same of the CODE: get_allowed_shapes_code is regenerated on every run from the numpy source of
+   generator.get_allowed_shapes (harness/translate/allowed.py; the numpy idioms are the total functions of Common/Np.v, the call
+   to check_tree is the generated check_tree_code).  For every complexity it returns the matrix the model computes and raises
+   exactly where the model says Crash (n = 0); so for n >= 1 its rows are the prefix codes of all trees with n nodes, each once. *)
+Theorem C01_code_allowed_is_model : forall n,
+  get_allowed_shapes_code n = match allowed n with Ok l => Some (mkArr n l) | _ => None end.
+Proof. exact allowed_code_is_model. Qed.
+Print Assumptions C01_code_allowed_is_model.
+Theorem C01_code_allowed_exact : forall n, 1 <= n ->
+  exists l, get_allowed_shapes_code n = Some (mkArr n l) /\ l = filter lukb (product n) /\
+            (forall s, In s l <-> length s = n /\ exists t, pre t = s) /\ NoDup l.
+Proof. exact allowed_code_exact. Qed.
+Print Assumptions C01_code_allowed_exact.
+Theorem C01_code_allowed_zero : get_allowed_shapes_code 0 = None.
+Proof. exact allowed_code_zero. Qed.
+Example C01_ex_code_shapes4 : get_allowed_shapes_code 4 = Some (mkArr 4 [[1;1;1;0]; [1;2;0;0]; [2;0;1;0]; [2;1;0;0]]).
+Proof. vm_compute. reflexivity. Qed.
 
 (* shape_to_functions, per shape: the label lists produced for the shape of u are exactly the
    renderings (prefix label list, parameters numbered a0, a1, ... in prefix order) of the trees
